@@ -544,7 +544,7 @@ func c05Run(j c05Job) (res c05Res) {
 				res.MaxBlocks = nb
 			}
 			for _, img := range d.images(torn, j.NoSync, &res.Capped) {
-				key := imageKey(img)
+				key := fmt.Sprintf("%d|%s", acks, imageKey(img)) // the same image is checked again once more has been acknowledged
 				if seenImg[key] {
 					continue
 				}
